@@ -153,7 +153,7 @@ pub(crate) fn generate_eager_reader_artifacts<TCompilationProfile: CompilationPr
         )
     };
 
-    let mut path_and_contents = vec![ArtifactPathAndContent {
+    let path_and_contents = vec![ArtifactPathAndContent {
         file_content: reader_content.into(),
         artifact_path: ArtifactPath {
             file_name: *RESOLVER_READER_FILE_NAME,
@@ -165,33 +165,49 @@ pub(crate) fn generate_eager_reader_artifacts<TCompilationProfile: CompilationPr
         },
     }];
 
-    let variable_definitions = match client_selectable {
-        SelectionType::Scalar(s) => s.arguments.reference(),
-        SelectionType::Object(o) => o.arguments.reference(),
+    path_and_contents
+}
+
+/// The parameters_type artifact is imported by the param_type artifact, so (like the
+/// param_type artifact) it is generated for every user-written client selectable that
+/// has variables, whether or not it is reachable from an entrypoint.
+pub(crate) fn generate_eager_reader_parameters_type_artifact<
+    TCompilationProfile: CompilationProfile,
+>(
+    db: &IsographDatabase<TCompilationProfile>,
+    client_selectable: MemoRefClientSelectable<TCompilationProfile>,
+) -> Option<ArtifactPathAndContent> {
+    let (parent_entity_name, client_selectable_name, variable_definitions) = match client_selectable
+    {
+        SelectionType::Scalar(s) => {
+            let s = s.lookup(db);
+            (s.parent_entity_name, s.name, s.arguments.reference())
+        }
+        SelectionType::Object(o) => {
+            let o = o.lookup(db);
+            (o.parent_entity_name, o.name, o.arguments.reference())
+        }
     };
-    if !variable_definitions.is_empty() {
-        let reader_parameters_type = format!(
-            "{}__{}__parameters",
-            parent_object_entity.name, client_selectable_name
-        );
-        let parameters = variable_definitions.iter();
-        let parameters_types = generate_parameters(db, parameters);
-        let parameters_content =
-            format!("export type {reader_parameters_type} = {parameters_types}\n");
-        path_and_contents.push(ArtifactPathAndContent {
-            file_content: parameters_content.into(),
-            artifact_path: ArtifactPath {
-                file_name: *RESOLVER_PARAMETERS_TYPE_FILE_NAME,
-                type_and_field: EntityNameAndSelectableName {
-                    parent_entity_name: parent_object_entity.name.item,
-                    selectable_name: client_selectable_name,
-                }
-                .wrap_some(),
-            },
-        });
+    if variable_definitions.is_empty() {
+        return None;
     }
 
-    path_and_contents
+    let reader_parameters_type =
+        format!("{parent_entity_name}__{client_selectable_name}__parameters");
+    let parameters_types = generate_parameters(db, variable_definitions.iter());
+    let parameters_content = format!("export type {reader_parameters_type} = {parameters_types}\n");
+    ArtifactPathAndContent {
+        file_content: parameters_content.into(),
+        artifact_path: ArtifactPath {
+            file_name: *RESOLVER_PARAMETERS_TYPE_FILE_NAME,
+            type_and_field: EntityNameAndSelectableName {
+                parent_entity_name,
+                selectable_name: client_selectable_name,
+            }
+            .wrap_some(),
+        },
+    }
+    .wrap_some()
 }
 
 pub(crate) fn generate_eager_reader_condition_artifact<TCompilationProfile: CompilationProfile>(
